@@ -4,6 +4,17 @@ NOT_APPLICABLE = {('C%02d' % i): TODO for i in range(1, 21)}
 R_NOTE = ('R-model: floats are mathematical reals, float literals are the decimal rationals written in the source, '
           'transcendental functions are uninterpreted with sound axiom instances; IEEE rounding is outside the claim. ')
 CHECKS = {
+    'C20': {
+        'text': 'Bounded symbolic execution + SMT: the two Flask handlers of api/app.py (real source) run with a request stub whose numeric '
+                'query fields are symbolic reals (zero and negatives included) and whose angle-type fields range over {absent, dd, dms}^2; '
+                'vincinv/vincdir/hp2dec/dec2hp are uninterpreted summaries, jsonify the identity: on every path of all 18 route/type '
+                'combinations the status is 200 and every field is proved equal to the library value with HP conversion exactly when dms is '
+                'requested; the index route is compared with the URL map. Failures are replayed through the real Flask test client.',
+        'design_ref': 'DESIGN.md section 7 C20',
+        'note': 'Werkzeug parsing and JSON float text are outside the solver model (exercised only in replay); library functions are '
+                'represented by summaries (their own properties: C04, C05, C08).',
+        'technique': 'symbolic execution of the real Python source with callee summaries + SMT (z3 EUF/LRA), witness replay',
+    },
     'C19': {
         'text': 'Bounded symbolic execution + SMT: joins/radiations/polar2rect/rect2polar, va_conv, first_vel_params, part_h2o_vap_press, '
                 'first_vel_corrn (three input forms), phase/group_refractivity (real source) on symbolic inputs over the physical box: '
